@@ -86,7 +86,10 @@ type c12Case struct {
 	sets      [3][]c12H
 	pPresent  bool
 	fwd       map[uint64]bool
-	pre       map[int]int // hash id -> 0 none, 1 preimage db, 2 invoice with preimage, 3 invoice without
+	// hash id -> answer of the preimage lookup: 0 ErrInvoiceNotFound, 1 found in
+	// the witness cache, 2 invoice with preimage, 3 invoice without preimage,
+	// 4 ErrNoInvoicesCreated, 5 other (hard) registry error
+	pre map[int]int
 }
 
 func c12Preimage(id int) lntypes.Preimage {
@@ -210,6 +213,11 @@ func (r *c12Registry) LookupInvoice(_ context.Context, h lntypes.Hash) (invoices
 		return invoices.Invoice{Terms: invoices.ContractTerm{PaymentPreimage: &p}}, nil
 	case 3:
 		return invoices.Invoice{}, nil
+	case 4:
+		// what the kv invoice store answers on a node that never created an invoice
+		return invoices.Invoice{}, invoices.ErrNoInvoicesCreated
+	case 5:
+		return invoices.Invoice{}, errors.New("c12: invoice database failure")
 	}
 	return invoices.Invoice{}, invoices.ErrInvoiceNotFound
 }
@@ -364,7 +372,7 @@ func c12NewArb(t *testing.T, c *c12Case, fcErr error) *c12Arb {
 		switch k {
 		case 1:
 			beacon.lookupPreimage[h] = c12Preimage(id)
-		case 2, 3:
+		case 2, 3, 4, 5:
 			reg.kinds[h] = k
 		}
 	}
@@ -581,6 +589,7 @@ func (x *c12) header(kind string, c *c12Case, extra string) string {
 	}
 	sort.Slice(pr, func(i, j int) bool { return pr[i] < pr[j] })
 	x.pf("FWD %s", c12U64s(fw))
+	x.pf("PERR %s", c12U64s(c12PreErr(c.pre)))
 	x.pf("PRE %s", c12U64s(pr))
 	return id
 }
@@ -588,6 +597,18 @@ func (x *c12) header(kind string, c *c12Case, extra string) string {
 // ---------------------------------------------------------------------------
 // generators
 // ---------------------------------------------------------------------------
+
+// hash ids whose lookup answers with a hard error
+func c12PreErr(pre map[int]int) []uint64 {
+	var out []uint64
+	for i, v := range pre {
+		if v == 5 {
+			out = append(out, uint64(i))
+		}
+	}
+	sort.Slice(out, func(i, j int) bool { return out[i] < out[j] })
+	return out
+}
 
 func c12Pick32(r *rand.Rand, xs ...uint32) uint32 { return xs[r.Intn(len(xs))] }
 
@@ -696,15 +717,19 @@ func (x *c12) genCase(maxSlots int) *c12Case {
 	for s := 0; s < 3; s++ {
 		for _, h := range c.sets[s] {
 			if _, ok := c.pre[h.hash]; !ok {
-				switch v := r.Intn(10); {
-				case v < 6:
+				switch v := r.Intn(40); {
+				case v < 13:
 					c.pre[h.hash] = 0
-				case v < 8:
+				case v < 24:
+					c.pre[h.hash] = 4
+				case v < 31:
 					c.pre[h.hash] = 1
-				case v < 9:
+				case v < 35:
 					c.pre[h.hash] = 2
-				default:
+				case v < 39:
 					c.pre[h.hash] = 3
+				default:
+					c.pre[h.hash] = 5
 				}
 			}
 		}
@@ -1396,10 +1421,7 @@ func (x *c12) watcherCase() {
 				}
 			}
 			if _, ok := c.pre[h.hash]; !ok {
-				c.pre[h.hash] = 0
-				if r.Intn(5) == 0 {
-					c.pre[h.hash] = 1
-				}
+				c.pre[h.hash] = []int{0, 4, 4, 0, 1}[r.Intn(5)]
 			}
 		}
 	}
@@ -1533,6 +1555,7 @@ func (x *c12) watcherCase() {
 	sort.Slice(fw, func(i, j int) bool { return fw[i] < fw[j] })
 	sort.Slice(pr, func(i, j int) bool { return pr[i] < pr[j] })
 	x.pf("FWD %s", c12U64s(fw))
+	x.pf("PERR %s", c12U64s(c12PreErr(c.pre)))
 	x.pf("PRE %s", c12U64s(pr))
 	defer x.pf("END")
 	if cs == nil || evKind == "none" || real == nil {
@@ -1657,6 +1680,17 @@ func c12Corpus() []struct {
 	f2b.pPresent = true
 	f2b.fwd[3], f2b.fwd[7] = true, true
 	out = append(out, e{f2b, 1, 0, "local", []uint32{896}})
+
+	// a node that never created an invoice (LookupInvoice answers
+	// ErrNoInvoicesCreated) with a received HTLC whose preimage is unknown and a
+	// forwarded offered HTLC reaching its cut-off: must still go on chain.
+	ni := mk()
+	ni.sets[c12L] = []c12H{{idx: 1, amt: 10000000, exp: 700, out: 0, hash: 1},
+		{idx: 1, incoming: true, amt: 10000000, exp: 900, out: 1, hash: 2}}
+	ni.sets[c12R] = append([]c12H(nil), ni.sets[c12L]...)
+	ni.fwd[1] = true
+	ni.pre[1], ni.pre[2] = 4, 4
+	out = append(out, e{ni, 0, 0, "remote", []uint32{694, 695, 696}})
 
 	// chain trigger exactly at the cutoff, one block before, one after.
 	ct := mk()
